@@ -326,7 +326,13 @@ pub fn decode_mount(data: &[u8]) -> MountCase {
                     (f.0, f.1, f.2, d.u32())
                 })
                 .collect();
-            MountCase::HighLba { delta, base, edits }
+            let mbr_len = match d.u8() % 5 {
+                0 => Some(0),
+                1 => Some(1),
+                2 => Some(d.u32()),
+                _ => None,
+            };
+            MountCase::HighLba { delta: if d.bool() { delta % 4 } else { delta }, base, edits, mbr_len }
         }
         _ => {
             let sigs = d.bool();
